@@ -26,6 +26,16 @@ CHECKS = {
           "Corpora of 30-2500 short documents over a 15-word vocabulary (posting lists spanning many blocks) in 1-3 segments with deletions and four (k1,b) settings; 12 scored query trees per corpus (terms, bool, dis_max, boosts incl. 0, multi_match, expansions, function_score, script_score, rank_feature, constant_score, phrases) with limit 1..50, optional filter, wand or bmw and block size 1..300. The pruned response must equal the exhaustive one (length, position-wise and per-id scores within 1e-5 relative, membership differing only among ties with the k-th score) and its total_hits_estimate must not exceed the exhaustive one.",
           "Trusted: the exhaustive bm25 strategy as the reference (C10 checks it against an independent BM25 model). Float tolerance 1e-5 relative.",
           "DESIGN.md §5 C09"),
+  "C11": ("exploration",
+          "property-based testing: cursor walk vs single covering request (metamorphic) plus cursor-misuse scenarios",
+          "Tie-heavy corpora over 1-4 segments with deletions, queries, filters, sort plans of 0-3 keys, page sizes 1..7 and all three execution strategies: the concatenated pages must equal the single covering request (ids, order, scores), without duplicates, with full pages and no cursor on the last page; total_hits_estimate never exceeds the true count and is exact when execution is exhaustive. The first page's cursor is then replayed after an add+commit, a compaction, a delete-only commit and against a different sort plan and must be rejected (leniently judged after a delete-only commit).",
+          "Trusted: the single covering request as reference for order (C10 checks that order against an independent model). Cursor walks combined with rescore are not generated (unspecified).",
+          "DESIGN.md §5 C11"),
+  "C13": ("exploration",
+          "metamorphic property-based testing (one base request vs paging / sort / execution / flag / rescore variations)",
+          "For generated corpora, queries, filters, aggregation trees (terms, rare_terms, range, histogram, filter, composite, metrics, percentiles, top_hits) and completion suggest requests, the aggregations and suggestions of 5 variations per case (limit 1..n, return_hits=false, sort plans, wand/bmw block sizes, explain/profile, rescore, every page of a cursor walk) must equal those of a covering bm25 base request (counts exact, floats 1e-9 relative).",
+          "Trusted: json comparison only. Differences of top_hits scores under explain are attributed to the listed C20 finding.",
+          "DESIGN.md §5 C13"),
   "C14": ("exploration",
           "metamorphic property-based testing (before/after Index::compact on generated histories, queries and filters)",
           "Generated schemas (mostly compactable, some not), histories of 1-5 commits with upserts and deletes over nested / multi-valued / null / empty values, 10 queries and 10 filter trees: live ids, stored fields and every query/filter id set are captured before and after compaction, through the same Index and a fresh open, and must be equal; segment count and tombstones are checked after a rewrite; a refusal must leave everything unchanged.",
@@ -36,6 +46,11 @@ CHECKS = {
           "Random schemas and schema-valid documents are mutated by 1-3 structural edits (undeclared keys, replaced/wrapped/removed nodes, id edits). Oracle: add_document Ok implies commit Ok and a later valid document through a fresh writer commits; a document violating a documented rule (independent validator in the harness) must be rejected at add_document. Tens of thousands of documents per quick run.",
           "Trusted: the harness's own reading of the documented schema rules (props/c15.rs schema_violation). Top-level keys that are dotted paths of declared nested leaves are not generated (README documents flattened dotted names).",
           "DESIGN.md §5 C15"),
+  "C20": ("exploration",
+          "metamorphic property-based testing (explain/profile off vs on)",
+          "Requests over generated corpora (query, filter, sort plan, limit, execution strategy, optional aggregations, optional rescore, first or second page) are evaluated with (explain, profile) off and with the three other combinations: ids, order, scores, totals, cursors and aggregations must be equal, every hit must carry an explanation whose final_score equals its score, and profile must be present when asked. Three listed findings (one root cause: explain runs a separate execution path) are matched by predicate and excluded.",
+          "Trusted: comparison only; score tolerance 1e-5 relative.",
+          "DESIGN.md §5 C20"),
 }
 
 NOT_APPLICABLE = {
